@@ -1,2 +1,3 @@
 -- root of the proof library: one module per property (theorems only) + helper lemmas
 import Proofs.C04
+import Proofs.C01
